@@ -121,7 +121,11 @@ func stacklessWriteZstd(ctx any) {
 	stacklessWriteZstdOnce.Do(func() {
 		stacklessWriteZstdFunc = stackless.NewFunc(nonblockingWriteZstd)
 	})
-	stacklessWriteZstdFunc(ctx)
+	if !stacklessWriteZstdFunc(ctx) {
+		// The stackless queue is full (high load): compress on the
+		// caller's stack instead of silently producing no output.
+		nonblockingWriteZstd(ctx)
+	}
 }
 
 func nonblockingWriteZstd(ctxv any) {
